@@ -8,6 +8,7 @@
 
 #include <atomic>
 #include <set>
+#include <string>
 #include <vector>
 
 #include "detsim.h"
@@ -40,6 +41,35 @@ F resolve(std::atomic<void*>& slot, const char* name) {  // no guarded function-
     auto var = resolve<type>(slot_##var, name)
 }  // namespace
 
+namespace {
+// lexical normalisation of an absolute or cwd-relative path ("." and ".." resolved textually)
+std::string normalise(const char* name) {
+    std::string p = name;
+    if (p.empty() || p[0] != '/') {
+        char buf[8192];
+        if (getcwd(buf, sizeof buf)) p = std::string(buf) + "/" + p;
+    }
+    std::vector<std::string> parts;
+    size_t i = 0;
+    while (i < p.size()) {
+        size_t e = p.find('/', i);
+        std::string seg = p.substr(i, e == std::string::npos ? std::string::npos : e - i);
+        if (seg == "..") { if (!parts.empty()) parts.pop_back(); }
+        else if (!seg.empty() && seg != ".") parts.push_back(seg);
+        if (e == std::string::npos) break;
+        i = e + 1;
+    }
+    std::string r;
+    for (auto& s : parts) r += "/" + s;
+    return r.empty() ? "/" : r;
+}
+bool inside_root(const char* name) {
+    if (g_cfg.root.empty()) return true;
+    std::string n = normalise(name);
+    return n == g_cfg.root || (n.size() > g_cfg.root.size() && n.compare(0, g_cfg.root.size(), g_cfg.root) == 0 && n[g_cfg.root.size()] == '/');
+}
+}  // namespace
+
 namespace sim {
 void set_dirsim(const DirSimConfig& c) { g_cfg = c; }
 int open_handles() { return g_handles; }
@@ -52,7 +82,7 @@ DIR* opendir(const char* name) {
     RESOLVE(r_opendir, DIR* (*)(const char*), "opendir");
     RESOLVE(r_readdir, dirent* (*)(DIR*), "readdir");
     RESOLVE(r_closedir, int (*)(DIR*), "closedir");
-    if (!sim::active() || !g_cfg.enabled) return r_opendir(name);
+    if (!sim::active() || !g_cfg.enabled || !inside_root(name)) return r_opendir(name);
     DIR* d = r_opendir(name);
     if (!d) return nullptr;
     auto* f = new FakeDir();
